@@ -259,6 +259,8 @@ pub struct Checks {
     pub decode: bool,       // C16 (every dump parses)
     pub rejected: bool,     // C19
     pub metric_change: bool, // C18
+    pub id_log: bool,        // C13 in situ
+    pub chaos: bool,         // C13: seeded scheduling noise inside the parallel part of a build
     pub build_must_succeed: bool,
     /// distance-accuracy clause of the query checks (off for degenerate data)
     pub accuracy: bool,
@@ -1272,7 +1274,31 @@ impl Engine<'_> {
         let batches = if opts.memory.is_some() { n / 200 + 2 } else { 0 };
         let limit = poll_bound(n, trees_bound, batches);
         let loop_limit = loop_bound(n, trees_bound);
+        #[cfg(arroy_verif)]
+        {
+            if ck.id_log {
+                arroy::verif::log_start();
+            }
+            if ck.chaos {
+                arroy::verif::chaos_arm(opts.rng_seed | 1, 35);
+            }
+        }
         let out = with_metric!(metric, D, run_build::<D>(wtxn, db, &model.ix[op_ix], opts, tmpdir, limit, loop_limit));
+        #[cfg(arroy_verif)]
+        {
+            if ck.chaos {
+                self.c.add("chaos_points_hit", arroy::verif::chaos_hits());
+                arroy::verif::chaos_arm(0, 0);
+            }
+            if ck.id_log {
+                let (used, events) = arroy::verif::log_stop();
+                if matches!(out, BuildOutcome::Ok { .. }) {
+                    if let Err(e) = crate::props::c13::check_id_log(&used, &events, &mut self.c, &mut self.sigs) {
+                        return Some(vio(step, "idlog", format!("{desc} over {n} items, {} threads: {e}", opts.threads)));
+                    }
+                }
+            }
+        }
         let owned = ck.build_must_succeed;
         match out {
             BuildOutcome::Ok { polls, ticks } => {
